@@ -84,6 +84,11 @@ def judge_load(part, probe, text_steps, what, budget, expect_cycle=False, entrie
             part.violation(panic_sig(e["panic"]), dict(wit, panic=e["panic"]), "panic while parsing definitions")
     if not dump["temporaries_empty"]:
         part.violation({"kind": "temporaries_left_after_load"}, wit, "")
+    # a definition whose exponent is not a whole number cannot be stored exactly: it must have been refused
+    kept = [pn for pn, _ in dump["prefixes"] if re.fullmatch(r"pf\d+", pn)] + [qn for _, qn in dump["quantities"] if re.fullmatch(r"qf\d+", qn)]
+    if kept:
+        part.violation({"kind": "fractional_exponent_definition_loaded", "what": "prefix" if kept[0].startswith("p") else "quantity"},
+                       dict(wit, names=kept[:5]), "a prefix / quantity defined with a non-integer exponent was loaded (with a truncated exponent)")
     # the context still answers queries, about what did load and about what did not
     probes = ["1 + 1"]
     names = sorted(defined_names(dump))
@@ -93,6 +98,8 @@ def judge_load(part, probe, text_steps, what, budget, expect_cycle=False, entrie
             probes += [n, "3 %s" % n, "1 %s -> %s" % (n, n), "units for %s" % n]
     for sym in sorted(dump.get("symbols", {}))[:3]:
         probes += ["%s2" % sym, "molar_mass of %s3%s" % (sym, sym), "%s -> kg" % sym]
+    probes += ["5 degC", "300 K -> degC", "2 degF -> degRe", "2 hours", "1000 b0", "1 / b0", "5 b0^-2", "0.001 b0", "1000 m", "1/m",
+               "search ans", "search _", "3 kg", "5000 byte", "5 tonne"]
     probes += ["brokenname + 1", "3 u0 -> u1", "mass of (2 s0)", "s0", "zork", "aa", "bb", "cc", "alias1", "3 aa -> bb", "units for zork",
                "1 zork -> alias1"]
     for s_name in list(dump["substances"])[:3]:
@@ -103,7 +110,7 @@ def judge_load(part, probe, text_steps, what, budget, expect_cycle=False, entrie
                     if re.fullmatch(r"[A-Za-z_][A-Za-z0-9_]*", nm):
                         probes.append("%s of %s" % (nm, s_name))
                         probes.append("%s of (2 %s)" % (nm, s_name))
-    for q in probes[:60]:
+    for q in probes[:80]:
         a = probe.request({"op": "eval", "ctx": cid, "q": q}, timeout=30)
         if "timeout" in a or "died" in a:
             part.violation({"kind": "query_after_load_no_reply", "how": "timeout" if "timeout" in a else "died"},
@@ -123,11 +130,28 @@ def judge_load(part, probe, text_steps, what, budget, expect_cycle=False, entrie
 
 # ---------------------------------------------------------------- generators
 
+NAMED_IN_CODE = ["zerocelsius", "zerofahrenheit", "kelvin", "degrankine", "reaumur_absolute", "romer_absolute", "delisle_absolute",
+                 "newton_absolute", "K", "year", "week", "day", "hour", "minute", "second", "s", "kg", "mol", "bit", "radian", "kilo-",
+                 "milli-", "byte", "gram", "tonne", "percent"]
+
+
 def mutate_lines(rng, lines):
     lines = list(lines)
     kind = rng.choice(["delete_line", "dup_line", "swap_lines", "delete_token", "dup_token", "insert_token", "truncate",
-                       "delete_block", "crlf", "join_lines"])
+                       "delete_block", "crlf", "join_lines", "delete_named", "redefine_named"])
     i = rng.randrange(len(lines))
+    if kind in ("delete_named", "redefine_named"):
+        # definitions the evaluator looks up by name (temperature scales, the duration breakdown, SI prefixes, kg/bit special
+        # cases): take one away, or give it another value / dimension
+        name = rng.choice(NAMED_IN_CODE)
+        idxs = [k for k, l in enumerate(lines) if l.split(" ")[0] == name or l.startswith(name + "\t")]
+        if idxs:
+            k = rng.choice(idxs)
+            if kind == "delete_named":
+                del lines[k]
+            else:
+                lines[k] = "%s %s" % (name, rng.choice(["0", "3 m", "1", "-1", "s", "2 kg"]))
+        return kind + ":" + name.rstrip("-"), "\n".join(lines) + "\n"
     if kind == "delete_line":
         del lines[i]
     elif kind == "dup_line":
@@ -189,6 +213,14 @@ def gen_file(rng):
                                 ["%s^%s" % (a, b) for a in ["0", "0.0", "1"] for b in small + ["2147483647", "2147483648", "-2147483648"]] +
                                 ["1|%s" % a for a in ["0", pn]] + ["-" + pn])
             out.append("p%d%s %s" % (i, rng.choice(["-", "--"]), pv))
+            if rng.random() < 0.25:
+                out.append("%s- %s" % (rng.choice(["kilo", "milli", "mega", "micro", "nano", "giga"]), rng.choice(["0", "-1", "0.0", "1e3", "1|0"])))
+            if rng.random() < 0.25:
+                # an exponent that is not a whole number cannot be honoured: the definition must be refused, not truncated
+                out.append("pf%d- %s" % (i, rng.choice(["10^0.5", "4^(1|2)", "2^2.5", "10^-0.5", "9^(3|2)"])))
+                out.append("qf%d ? %s^%s" % (i, bases[0], rng.choice(["2.5", "0.5", "(1|2)", "-1.5"])))
+            if rng.random() < 0.15:
+                out.append("%s %s %s" % (rng.choice(["ans", "_", "ANS"]), rng.choice(vals), rng.choice(units)))
         elif r < 0.55:
             out.append("q%d ? %s" % (i, rng.choice([rng.choice(bases), "%s^2" % bases[0], "%s / %s" % (bases[0], bases[-1]),
                                                   "q%d %s" % (rng.randrange(30), bases[0]), "2 %s" % bases[0], "nosuch", "%s^x" % bases[0],
